@@ -16,6 +16,7 @@ def _mk():
     from jumanji.environments.logic.minesweeper.reward import DefaultRewardFn as MSReward
     from jumanji.environments.logic.rubiks_cube.generator import ScramblingGenerator
     from jumanji.environments.logic.sliding_tile_puzzle.generator import RandomWalkGenerator as STGen
+    from jumanji.environments.logic.sudoku.generator import DatabaseGenerator as SuDB
     from jumanji.environments.logic.sudoku.generator import DummyGenerator as SuDummy
     from jumanji.environments.packing.bin_pack.generator import RandomGenerator as BGen
     from jumanji.environments.packing.bin_pack.generator import ToyGenerator as BToy
@@ -46,7 +47,8 @@ def _mk():
         "RubiksCube": {"2": lambda: RubiksCube(ScramblingGenerator(2, 3), time_limit=7), "3": lambda: RubiksCube(ScramblingGenerator(3, 3), time_limit=7),
                        "4": lambda: RubiksCube(ScramblingGenerator(4, 2), time_limit=7)},
         "SlidingTilePuzzle": {"2": lambda: SlidingTilePuzzle(STGen(2, 3), time_limit=7), "3": lambda: SlidingTilePuzzle(STGen(3, 3), time_limit=7)},
-        "Sudoku": {"9x9": lambda: Sudoku(SuDummy())},
+        # "db": a caller-owned int32 numpy database shared by every instance built from this thunk (constructors must not modify their arguments)
+        "Sudoku": {"9x9": lambda: Sudoku(SuDummy()), "db": lambda: Sudoku(SuDB(_sudoku_db()))},
         "Knapsack": {"3": lambda: Knapsack(KGen(3, 1.5)), "5": lambda: Knapsack(KGen(5, 2.0))},
         "JobShop": {"2x2x2x2": lambda: JobShop(JGen(2, 2, 2, 2)), "3x2x2x3": lambda: JobShop(JGen(3, 2, 2, 3))},
         "BinPack": {"i2e3o3": lambda: BinPack(BGen(max_num_items=2, max_num_ems=3, split_num_same_items=1), obs_num_ems=3),
@@ -75,6 +77,22 @@ def _mk():
         "MMST": {"default": lambda: MMST(time_limit=7)},
         "PacMan": {"default": lambda: PacMan()},
     }
+
+
+_SUDOKU_DB = None
+
+
+def _sudoku_db():
+    """two puzzles (the shipped dummy puzzle with one resp. two more cells blanked), 0 = empty, as a caller-owned int32 numpy array"""
+    global _SUDOKU_DB
+    if _SUDOKU_DB is None:
+        import numpy as np
+        from jumanji.environments.logic.sudoku.generator import DummyGenerator
+        b = np.asarray(DummyGenerator()(jax.random.PRNGKey(0)).board, dtype=np.int32) + 1
+        b2 = b.copy()
+        b2[b2 > 0][:1] = 0
+        _SUDOKU_DB = np.stack([b, b2]).astype(np.int32)
+    return _SUDOKU_DB
 
 
 _ALL = None
